@@ -59,11 +59,13 @@ def specs(tier):
         ("presum4", "bal", "from_path"),
         ("diag4", "comb-r", "from_path"), ("comps4", "bal", "from_path"),
         ("perm3", "comb", "from_path"), ("perm3", "comb2", "tracked"),
+        ("presum2x3", "comb", "from_path"),
         ("ring5", "bal", "from_path"), ("ring5", "mix", "optimizer"),
         ("k4", "bal", "from_path"), ("size1", "comb", "from_path"),
         ("outer4", "bal", "from_path"),
     ]
     deep = [
+        ("presum2x3", "comb2", "from_path"),
         ("chain4", "bal", "tracked"), ("hyper4", "comb", "from_path"),
         ("presum4", "bal", "from_path"), ("diag4", "comb-r", "from_path"),
         ("perm3", "comb", "from_path"), ("batch4", "bal", "from_path"),
